@@ -293,3 +293,57 @@ Example C09_example :
   (forall p, (fun v : vec => match v with [q] => 3 - 2 * q | _ => 0 end)%Q [p] == 3 - 2 * p)%Q /\
   Forall (fblock_ok 0%Z ex_all ex_pi) ex_blocks.
 Proof. split; [exact ex_run_ok | split; [exact ex_points_kept | split; [intros; reflexivity | split; [intros; reflexivity | exact ex_blocks_ok]]]]. Qed.
+
+(* ---- block samplers that precompute a stacked least-squares system from their target: LinearRTO (any noise) and UGLA ---- *)
+From CV Require Import Base.QcLin Model.C09_Rto Model.C09_Gibbs2 Proofs.C09_Rto Proofs.C09_Gibbs2.
+
+(* "each block is drawn from its conditional given the current other blocks", for the model's LinearRTO / UGLA draw.
+   rows re: one per scalar Gaussian factor of the conditional  q(y) = -1/2 sum_r w_r (c_r - <a_r, y>)^2  (qcond), paired with
+   the scripted standard normal e_r; s_r the square-root certificate.  If the model's draw returns x (and m with all
+   normals 0) then: (1) x solves the perturbed normal equations A^T W A x = A^T (W c + S e); (2) the conditional IS the
+   Gaussian with mean m and precision form B(v,v') = v^T A^T W A v' (completed square, every y), and with w >= 0 m is its
+   mode; (3) x - m is the linear image of the noise: B(x,v) - B(m,v) = v^T A^T S e for every v; (4) with s_r^2 = w_r the
+   covariance form of that noise functional under independent unit-variance normals, sum_r (s_r <a_r,v>)(s_r <a_r,v'>), IS
+   B(v,v'): the draw has the conditional's mean and precision.
+   NOT covered: that the normals are independent standard normals (law of numpy's generator); for the correspondence
+   s_r is a float certificate (s_r^2 = w_r to 1e-12), here (4) assumes it exact. *)
+Theorem C09_rto_draw_conditional : forall (n : nat) (re : noisy) (x m : list Qc),
+  rows_wf n re -> rto_draw n re = Some x -> rto_draw n (quiet re) = Some m ->
+  (length x = n /\ nrm_lhs n re x = nrm_rhs n re) /\
+  (forall y, length y = n ->
+     qcond re y = qcond re m - (Q2Qc (1 # 2)) * rsum (fun p => ls_w (fst p) * ((QcLin.qdot (ls_a (fst p)) y - QcLin.qdot (ls_a (fst p)) m)
+                                                                          * (QcLin.qdot (ls_a (fst p)) y - QcLin.qdot (ls_a (fst p)) m))) re)%Qc /\
+  (Forall (fun p => 0 <= ls_w (fst p))%Qc re -> forall y, length y = n -> (qcond re y <= qcond re m)%Qc) /\
+  (forall v, length v = n -> Bform re x v - Bform re m v = Nform re v)%Qc /\
+  (Forall (fun p => ls_s (fst p) * ls_s (fst p) = ls_w (fst p))%Qc re ->
+   forall v v', rsum (fun p => (ls_s (fst p) * QcLin.qdot (ls_a (fst p)) v) * (ls_s (fst p) * QcLin.qdot (ls_a (fst p)) v'))%Qc re = Bform re v v').
+Proof.
+  intros n re x m Hwf Hx Hm.
+  destruct (rto_draw_sound n re x Hwf Hx) as (H1 & H2 & _).
+  split; [split; assumption | ].
+  split; [exact (rto_mean_precision n re m Hwf Hm) | ].
+  split; [intros Hw; exact (rto_mean_is_mode n re m Hwf Hw Hm) | ].
+  split; [exact (rto_draw_minus_mean n re x m Hwf Hx Hm) | ].
+  intros Hs v v'. exact (rto_noise_covariance re v v' Hs).
+Qed.
+Print Assumptions C09_rto_draw_conditional.
+
+(* ... and inside the Gibbs state machine (the instance the correspondence runs for LinearRTO / UGLA blocks): at EVERY
+   transition of every run the stacked system of a least-squares block is built (rto_step -> ls_rows) from current_samples
+   at that moment -- the weights are the CURRENT noise / prior precisions, nothing precomputed from an earlier conditional
+   survives a re-targeting -- with the block's own entry = the sampler's current point (UGLA's Laplace weights). *)
+Theorem C09_ls_block_rows_current : forall tol fresh (jt : list vec -> Q) specs nst rnd ops t0 (x : @run vec tgt2 sst),
+  length (g_ss (r_st x)) = length (g_cur (r_st x)) -> r_log x = [] ->
+  Forall (fun e => e_blk e < length (e_cur e) /\
+                   forall sp r, nth (e_blk e) specs None = Some sp ->
+                     ctrans2 tol specs (e_blk e) (e_tgt e) (e_s e) r
+                     = rto_step tol sp (e_blk e) (upd (e_cur e) (e_blk e) (s_pt (e_s e))) (e_s e) r)
+         (r_log (run_ops (cond (jt2 jt)) s_pt (creinit2 fresh) (ctrans2 tol specs) ctune nst rnd ops t0 x)).
+Proof. exact ls_block_rows_current. Qed.
+Print Assumptions C09_ls_block_rows_current.
+
+(* non-vacuity of C09_rto_draw_conditional: rows with exact square-root certificates for which both draws succeed *)
+Example C09_example_rto :
+  rows_wf 2 ex_re /\ Forall (fun p => 0 <= ls_w (fst p))%Qc ex_re /\ Forall (fun p => ls_s (fst p) * ls_s (fst p) = ls_w (fst p))%Qc ex_re /\
+  (exists x, rto_draw 2 ex_re = Some x) /\ (exists m, rto_draw 2 (quiet ex_re) = Some m).
+Proof. exact ex_re_ok. Qed.
